@@ -145,7 +145,7 @@ func (g *schemaGenerator) generateReferencedType(t *schemas.Type) (codegen.Type,
 			return nil, fmt.Errorf("%w: definition %q", errNullSchema, defName)
 		}
 
-		if len(def.Type) == 0 && len(def.Properties) == 0 && def.Enum == nil {
+		if len(def.Type) == 0 && len(def.Properties) == 0 && def.Enum == nil && def.Ref == "" {
 			return &codegen.EmptyInterfaceType{}, nil
 		}
 
